@@ -113,12 +113,41 @@ class Executor:
         c = simplify_bool(c)
         if isinstance(c, bool):
             return c
+        if self.dpos >= len(self.decisions):
+            # fresh decision point: prune a side that is infeasible under the path condition
+            # (definite `unsat` only; `unknown` keeps both sides)
+            forced = self._forced(c)
+            if forced is not None:
+                self.decisions.append(("forced", forced))
+                self.dpos += 1
+                self.ctx.assume(c if forced else z3.Not(c))
+                return forced
+        elif isinstance(self.decisions[self.dpos], tuple):
+            forced = self.decisions[self.dpos][1]
+            self.dpos += 1
+            self.ctx.assume(c if forced else z3.Not(c))
+            return forced
         d = self.choice(2, label)
         if d == 0:
             self.ctx.assume(c)
             return True
         self.ctx.assume(z3.Not(c))
         return False
+
+    def _forced(self, c):
+        """True / False if the path condition forces the truth value of c (definite unsat of the other side)."""
+        for side, other in ((True, z3.Not(c)), (False, c)):
+            sol = z3.Solver()
+            sol.set("timeout", 400)
+            for h in self.ctx.hyps:
+                sol.add(h)
+            sol.add(other)
+            try:
+                if sol.check() == z3.unsat:
+                    return side
+            except z3.Z3Exception:
+                pass
+        return None
 
     # ------------------------------------------------------------ obligations
     def oblige(self, oid, goal, kind="assert", node=None, note=""):
